@@ -13,8 +13,14 @@ TRUST = ("Trusted: the reference models in harness/src/{model,hist}.rs (no code 
 CHECKS = {
     "C01": ("runtime monitoring: metamorphic round-trip oracle (parse->format->parse) over exhaustive token language, legal spellings, mutated corpus, escape soup; 3 instantiations",
             "Every accepted string of the workload is re-formatted and re-parsed by the real library and the fixpoint relation is judged per execution; complete for the bounded token language, sampled beyond.", "6/C01"),
+    "C02": ("runtime monitoring: constructive oracle (generated tuple -> spelling) + independent strict recogniser R1, cross-checked against each other; exhaustive token language; all 18 spelling freedoms and their pairs counted",
+            "Every spelling generated from a known component tuple, and every token-language string the strict recogniser accepts, is parsed by the real library and the reported components are compared with the expected ones, for the three parsable instantiations.", "6/C02"),
     "C03": ("runtime monitoring: independent renderer (reference model R2) compared with Display on every observed PURL; exhaustive over all Unicode scalars x 5 positions and ASCII pairs",
             "to_string() of every PURL produced is compared with a renderer written from the property's sentence and fed only from the accessors; complete for single scalars and ASCII pairs in each position.", "6/C03"),
+    "C05": ("runtime monitoring: strict recogniser R1 (never-accepted clause, exhaustive token language) + single-fault injection into legal spellings (error clause), injector cross-checked by R1",
+            "Every string with a listed defect that the workload produces is fed to the real parser; acceptance, or a wrong error variant when the defect is provably the only one, is a violation. Complete for the bounded token language.", "6/C05"),
+    "C07": ("runtime monitoring: independent raw-piece scanner + own percent decoder compared with reported namespace/subpath segments; exhaustive piece sequences (17 piece kinds, <=4/5 pieces)",
+            "Every accepted string is re-scanned independently and the reported segments must equal the decoded significant pieces; exhaustive over bounded piece sequences in both positions.", "6/C07"),
     "C08": ("runtime monitoring: name-rule model R4 + differential twins (parser vs builder, typed vs untyped) over every scalar value, all short names, token language, spellings",
             "Both entry points are executed for every (type, name) case and judged against the rule model; typed and untyped parses of the same string are compared field by field.", "6/C08"),
     "C09": ("runtime monitoring: lock-step builder model (R7) over exhaustive short call histories and random histories; parser as inverse; swapped-call replays",
